@@ -208,6 +208,9 @@ def replay(ctx, rec):
     b["tid"] = 1
     from . import family
     lg = family.guarded(exec_pop.execute, b)
+    if lg.get("crash"):
+        print(("VIOLATION property=%s replay=(replayed: " % ("C05")) + lg["crash"] + ")")
+        return 1
     if lg.get("timeout"):
         print("VIOLATION property=C05 replay=(replayed: the call does not terminate)")
         return 1
